@@ -5,7 +5,7 @@ From ClapModel Require Import Parse.Cmd Parse.Build Parse.Valid Parse.Matcher Pa
 From ClapModel Require Import ParseProofs.Safe ParseProofs.Invariant ParseProofs.Totality
                               ParseProofs.TotalityMain ParseProofs.IndexInv ParseProofs.Provenance Properties.C01.
 From ClapModel Require Import ParseProofs.Actions ParseProofs.Unparse ParseProofs.UnparseProofs ParseProofs.UnparseTop
-                              ParseProofs.UnparseSub ParseProofs.UnparseTree ParseProofs.UnparseIdx ParseProofs.UnparseIdxTop
+                              ParseProofs.UnparseSub ParseProofs.UnparseTrail ParseProofs.UnparseTree ParseProofs.UnparseIdx ParseProofs.UnparseIdxTop
                               ParseProofs.UnparseExamples.
 From Coq Require Import ZArith Sorting.Sorted List.
 Import ListNotations.
@@ -180,11 +180,22 @@ Print Assumptions C02_unparse_nonvacuous.
 (** * Subcommands and the top level (ParseProofs/UnparseSub.v, UnparseTree.v)
 
     An invocation tree [inv] is the items of one level, optionally followed by a subcommand name
-    (or alias) and the subcommand's own tree; [render_inv] prints it; [run_inv] is its meaning: per
+    (or alias) and the subcommand's own tree, or by [--] and the values after it ([ITrail]);
+    [render_inv] prints it; [run_inv] is its meaning: per
     level the meaning of the items, the child's matches stored under the child's name, then the
     env/default/validation phases.  Class [wf_inv] (boolean, on the built tree): every level [conv]
     and without [ignore_errors], its items [wf_items]; a subcommand name follows only a finished
-    occurrence, is recognised, is not the generated [help], no [args_conflicts_with_subcommands]. *)
+    occurrence, is recognised, is not the generated [help], no [args_conflicts_with_subcommands];
+    [--] does not directly follow an open run of a multi-valued positional, is not a subcommand name,
+    no [dont_delimit_trailing_values], every value after it finds a positional ([wf_trail]). *)
+
+(** AFTER [--] every token is a positional value, whatever it looks like: the loop hands each value to
+    the positional the counter points at; one that takes several values takes all that remain. *)
+Theorem C02_unparse_after_escape : forall c, conv c = true -> forall vs pos pst vaf st,
+  wf_trail c pos vs = true -> pend_inv c PSValuesDone st ->
+  parse_loop c vs (mkL pst pos vaf true) st = (do s' <- trail_apply c pos vs st; ROk (LDone s')).
+Proof. exact loop_trail. Qed.
+Print Assumptions C02_unparse_after_escape.
 
 (** the command-line machinery of a level never touches the subcommand slot (results and error
     states commute with storing anything there) *)
@@ -234,9 +245,9 @@ Print Assumptions C02_unparse_sub_level.
 Theorem C02_conservation_tree : forall i c f st, valid_tree (S f) c = true -> wf_inv c i = true ->
   get_matches_with (S f) c (render_inv i) ps_new = ROk st ->
   forall a, In a (c_args c) ->
-    (forall gs, denote_arg c (a_id a) (inv_items i) = Some gs -> groups_of (a_id a) (mt st) = Some gs)
+    (forall gs, denote_os c (a_id a) (inv_occs c i) = Some gs -> groups_of (a_id a) (mt st) = Some gs)
     /\ (forall e, fm_get (a_id a) (mt_args (mt st)) = Some e -> m_source e = Some SCmdLine ->
-          denote_arg c (a_id a) (inv_items i) = Some (m_raw e)).
+          denote_os c (a_id a) (inv_occs c i) = Some (m_raw e)).
 Proof. exact conservation_inv. Qed.
 Print Assumptions C02_conservation_tree.
 
@@ -288,26 +299,27 @@ Proof. exact react_core_idx. Qed.
 Print Assumptions C02_index_rule.
 
 (** INDICES OF AN INVOCATION.  At the root of any tree (hence at every level) the index list
-    reported for an argument is the one the invocation denotes ([denote_idx]: the fold of the index
-    rule over the level's occurrences, counter starting at 0). *)
+    reported for an argument is the one the invocation denotes ([denote_idx_os]: the fold of the index
+    rule over the level's occurrences [inv_occs], counter starting at 0). *)
 Theorem C02_indices_tree : forall i c f st, valid_tree (S f) c = true -> wf_inv c i = true ->
   get_matches_with (S f) c (render_inv i) ps_new = ROk st ->
-  forall a ix, In a (c_args c) -> denote_idx c (a_id a) (inv_items i) = Some ix ->
+  forall a ix, In a (c_args c) -> denote_idx_os c (a_id a) (inv_occs c i) = Some ix ->
   idx_of (a_id a) (mt st) = Some ix.
 Proof. exact indices_inv. Qed.
 Print Assumptions C02_indices_tree.
 
 (** INDICES INCREASE IN ARGV ORDER.  The index events of a level, taken in command-line order
-    ([events]: one entry per occurrence, the indices of its stored values), form one strictly
+    ([events_os]: one entry per occurrence, the indices of its stored values), form one strictly
     increasing sequence; an Append argument of a command without override relations reports exactly
     its own events, in that order. *)
-Theorem C02_index_events_increasing : forall c its, StronglySorted N.lt (concat (map snd (events c its))).
+Theorem C02_index_events_increasing : forall c os, StronglySorted N.lt (concat (map snd (events_os c os))).
 Proof. exact events_increasing. Qed.
 Print Assumptions C02_index_events_increasing.
 
-Theorem C02_indices_append : forall c its a, conv c = true -> no_overrides c = true -> In a (c_args c) ->
-  a_get_action a = AAppend -> (0 < Actions.count_occ (a_id a) (occs c 1 its))%nat ->
-  denote_idx c (a_id a) its = Some (own_events (a_id a) (events c its)).
+Theorem C02_indices_append : forall c os a, conv c = true -> no_overrides c = true ->
+  Forall (fun o => In (o_arg o) (c_args c)) os -> In a (c_args c) ->
+  a_get_action a = AAppend -> (0 < Actions.count_occ (a_id a) os)%nat ->
+  denote_idx_os c (a_id a) os = Some (own_events (a_id a) (events_os c os)).
 Proof. exact denote_idx_append. Qed.
 Print Assumptions C02_indices_append.
 
@@ -324,3 +336,20 @@ Theorem C02_indices_nonvacuous :
   UnparseEx.idx_after (render UnparseEx.its) [118] = Some (Some [22]).
 Proof. exact UnparseEx.ex_idx. Qed.
 Print Assumptions C02_indices_nonvacuous.
+
+(** Non-vacuity for [--]: [prog --qu --mu A -- F -x R] -- the open option is flushed, [F] goes to the
+    first positional, [-x] and [R] (values, because they follow [--]) to the multi-valued second one. *)
+Theorem C02_unparse_trail_nonvacuous :
+  conv UnparseEx.c = true /\ valid_tree 3 UnparseEx.c = true /\ wf_inv UnparseEx.c UnparseEx.trinv = true /\
+  render_inv UnparseEx.trinv = [[45; 45; 113; 117]; [45; 45; 109; 117]; [65]; [45; 45]; [70]; [45; 120]; [82]] /\
+  UnparseEx.groups_after (render_inv UnparseEx.trinv) [109] = Some (Some [[[65]]]) /\
+  UnparseEx.groups_after (render_inv UnparseEx.trinv) [102] = Some (Some [[[70]]]) /\
+  UnparseEx.groups_after (render_inv UnparseEx.trinv) [114] = Some (Some [[[45; 120]; [82]]]) /\
+  UnparseEx.idx_after (render_inv UnparseEx.trinv) [114] = Some (Some [5; 6]) /\
+  denote_os UnparseEx.c [114] (inv_occs UnparseEx.c UnparseEx.trinv) = Some [[[45; 120]; [82]]] /\
+  denote_idx_os UnparseEx.c [114] (inv_occs UnparseEx.c UnparseEx.trinv) = Some [5; 6].
+Proof.
+  split; [exact UnparseEx.ex_conv|]. split; [exact UnparseEx.ex_trail_valid|]. split; [exact UnparseEx.ex_trail_wf|].
+  split; [exact UnparseEx.ex_trail_render|]. exact UnparseEx.ex_trail_parse.
+Qed.
+Print Assumptions C02_unparse_trail_nonvacuous.
